@@ -565,6 +565,9 @@ Inductive constructed : err -> Prop :=
 | C_plain id msg fn : fn <> FnBad -> constructed (new_pybtex_error id msg fn)
 | C_syntax id etype msg p : constructed (new_syntax_error id etype msg p)
 | C_token id desc p : scan_state_ok p -> constructed (new_token_required id desc p)
+| C_token_line id desc p :        (* the weaker guarantee that suffices: the line number names a line of the text *)
+    (1 <= sc_lineno p <= Z.of_nat (length (splitlines true (sc_text p))))%Z ->
+    constructed (new_token_required id desc p)
 | C_token_bib id desc p start : bib_state_ok p start -> constructed (new_token_required_bib id desc p start)
 | C_aux id msg c : constructed (new_aux_error id msg c).
 
@@ -584,3 +587,20 @@ Definition kind_prefix (k : skind) : str :=
     | None => []
     end
   end.
+
+(* ------------------------------------------------------------------------------- *)
+(* "the set and order of reported problems does not depend on the mode", for one computation:
+   capture collects ps = reports c and restores normal reporting; non-strict prints one warning
+   per problem of ps in order (ss = their renderings) and sets error_code 2; strict raises the
+   first of ps.  (The conclusion of mode_independence, named so that it can be instantiated.) *)
+Definition modes_agree (g : G) (c : comp) (ss : list str) : Prop :=
+  let ps := reports c in
+  (let '(g1, o1, l1) := with_capture g c in
+   l1 = ps /\ o1 = ending c /\ g_cap g1 = None /\ g_strict g1 = g_strict g /\ g_code g1 = g_code g /\ g_out g1 = g_out g) /\
+  (let '(g2, o2) := run_comp (set_strict g false) c in
+   g_out g2 = g_out g ++ warn_text ss /\ o2 = ending c /\ (ps <> [] -> g_code g2 = 2%Z) /\ (ps = [] -> g_code g2 = g_code g)) /\
+  (let '(g3, o3) := run_comp (set_strict g true) c in
+   g3 = set_strict g true /\ o3 = match ps with e :: _ => Raised e | [] => ending c end).
+
+(* the computation that reports the given problems one after the other and then ends *)
+Definition comp_of (ps : list err) (last : comp) : comp := fold_right Report last ps.
